@@ -88,7 +88,7 @@ class WrapperRig(H.H11Rig):
 
 
 OPENINGS = ["plain", "plain-post", "h2c", "h2c-body", "prior", "prior+frames", "websocket", "h2c-then-more", "h2c-chunked",
-            "h2c-empty-settings", "h2c-body-mid", "h2c-body-first", "websocket-ka", "websocket-mixed", "post-upgrade-websocket"]
+            "h2c-empty-settings", "h2c-body-mid", "h2c-body-first", "websocket-ka", "websocket-mixed", "post-upgrade-websocket", "h2c-upper"]
 
 
 def opening_bytes(kind):
@@ -107,6 +107,11 @@ def opening_bytes(kind):
         if kind == "h2c-then-more":
             data += c.data_to_send()
         return data, c
+    if kind == "h2c-upper":
+        # protocol names in Upgrade are case-insensitive tokens (RFC 7230 6.7)
+        settings = c.initiate_upgrade_connection()
+        return (b"GET /up?x=1 HTTP/1.1\r\nHost: example.com\r\nConnection: upgrade, http2-settings\r\nUpgrade: H2C\r\nHTTP2-Settings: "
+                + settings + b"\r\n\r\n"), c
     if kind == "h2c-empty-settings":
         c.initiate_upgrade_connection()
         return (b"GET /up?x=1 HTTP/1.1\r\nHost: example.com\r\nConnection: Upgrade, HTTP2-Settings\r\nUpgrade: h2c\r\nHTTP2-Settings: "
@@ -205,10 +210,10 @@ def e2e_outcome(kind, split):
     elif kind.startswith("websocket"):
         outcome["wire"] = wire.split(b"\r\n")[0]
     else:
-        if kind in ("h2c", "h2c-then-more", "h2c-empty-settings"):
+        if kind in ("h2c", "h2c-then-more", "h2c-empty-settings", "h2c-upper"):
             head, _, rest = wire.partition(b"\r\n\r\n")
             outcome["wire"] = head.split(b"\r\n")[0]
-            if kind in ("h2c", "h2c-empty-settings"):
+            if kind in ("h2c", "h2c-empty-settings", "h2c-upper"):
                 rig.feed(client.data_to_send())
                 rig.run()
             # a further request on the upgraded connection must be served (nothing of the client's preface was lost)
@@ -243,6 +248,8 @@ EXPECT = {
     "websocket-mixed": {"scopes": [("websocket", "1.1", "/ws")], "wire": b"HTTP/1.1 101 "},
     "h2c": {"scopes": [("http", "2", "/up"), ("http", "2", "/after")], "wire": b"HTTP/1.1 101 ",
             "h2": [("ResponseReceived", 1), ("ResponseReceived", 3), ("StreamEnded", 1), ("StreamEnded", 3)]},
+    "h2c-upper": {"scopes": [("http", "2", "/up"), ("http", "2", "/after")], "wire": b"HTTP/1.1 101 ",
+                  "h2": [("ResponseReceived", 1), ("ResponseReceived", 3), ("StreamEnded", 1), ("StreamEnded", 3)]},
     "h2c-then-more": {"scopes": [("http", "2", "/up"), ("http", "2", "/after")], "wire": b"HTTP/1.1 101 ",
                       "h2": [("ResponseReceived", 1), ("ResponseReceived", 3), ("StreamEnded", 1), ("StreamEnded", 3)]},
     "prior": {"scopes": [], "h2": []},
